@@ -371,8 +371,11 @@ func checkC12(c C12Case, r *Rec) *Violation {
 					return Violf("C12: the Stack of a LOOP event is not the operand stack at that point: %s\n%s", why, where())
 				}
 			}
-			// (ii) OP_EXEC events are exactly the operator applications of this evaluation
-			if !c.Try {
+			// (ii) OP_EXEC events are exactly the operator applications of this evaluation (a caller
+			// context that is already done: the engine documents no reaction to it, and if it ever
+			// gets one - identical with and without events, see (i) - the reference would not know;
+			// such runs are judged like TryEval runs, by the operators' own call log and self-consistency)
+			if !c.Try && c.CtxKind < 2 {
 				ref := &m.Env{Vars: run.vars, Fail: u.Fail(), Custom: customModel(), Calls: run.calls, Fast: mask&MaskFast != 0}
 				_, rerr := ref.Eval(dt)
 				if rerr != m.ErrOptionalFetch {
